@@ -625,6 +625,12 @@ def decorate(lines, seed):
             out.append(f"var {cp} {t[1]}")
             ren[t[1]] = cp
             applied.append("copy")
+        elif t[0] in DEF_OPS and t[1] not in mutable and t[0] != "memread" and rng.random() < 0.15:
+            # the value routed THROUGH an attribute node (x = attribute(x, ...)): every later use sees the attributed copy
+            ap = f"{t[1]}_at"
+            out.append(f"attrp {ap} {t[1]}")
+            ren[t[1]] = ap
+            applied.append("attr-passthrough")
     body = out
     # 3. areas / entities around top-level ranges
     depth_if, depth_area = 0, 0
